@@ -34,6 +34,12 @@ func fnBitCount(ctx *cmdContext, args map[string]any) (output respValue, err err
 			end = int(end64)
 		}
 		_, bitMode = rangeArg.get("unit.bit")
+
+		if start < 0 && end < 0 && start > end {
+			// both from the end and in the wrong order: empty, whatever the length
+			output.data = respInt(0)
+			return
+		}
 	}
 
 	if bitMode {
